@@ -176,6 +176,7 @@ pub fn sig_entries(token: &str, extra: &[(u64, jsonwebtoken::DecodingKey)]) -> V
         "HS256" | "HS384" | "HS512" => Fam::Hmac,
         "ES256" | "ES384" => Fam::Ec,
         "EdDSA" => Fam::Ed,
+        "RS256" | "RS384" | "RS512" | "PS256" | "PS384" | "PS512" => Fam::Rsa,
         _ => return out,
     };
     for k in ALL_KEYS {
